@@ -31,6 +31,7 @@ type SolverStats struct {
 	MaxQuery                     time.Duration
 	Restarts                     int
 	Fallbacks                    int
+	Errors                       int
 }
 
 type Solver struct {
@@ -286,22 +287,21 @@ func (s *Solver) Check() Result {
 	t0 := time.Now()
 	s.send("(check-sat)")
 	res := Unknown
+	sawError := false
 	for {
 		line := s.readLine()
 		if strings.HasPrefix(line, "(error") {
-			fmt.Fprintf(os.Stderr, "solver error: %s\n", line)
-			res = Unknown
+			// an error may stem from an earlier command (e.g. a push cancelled
+			// by the soft timeout): the solver's stack can no longer be
+			// trusted
+			if !sawError && s.stats.Errors < 3 {
+				fmt.Fprintf(os.Stderr, "solver protocol error: %s\n", line)
+			}
+			sawError = true
 			if s.dead {
 				break
 			}
-			// errors precede the answer; keep reading but remember
-			for {
-				l2 := s.readLine()
-				if l2 == "sat" || l2 == "unsat" || l2 == "unknown" || s.dead {
-					break
-				}
-			}
-			break
+			continue
 		}
 		if line == "sat" {
 			res = Sat
@@ -315,16 +315,17 @@ func (s *Solver) Check() Result {
 			res = Unknown
 			break
 		}
-		// ignore other output
 		if s.dead {
 			break
 		}
 	}
 	s.fbActive = false
+	if sawError || s.dead {
+		res = Unknown
+		s.stats.Errors++
+		s.restartAndReplay()
+	}
 	if res == Unknown && s.fallback != "" {
-		if s.dead {
-			s.restartAndReplay()
-		}
 		res = s.oneShot()
 		s.stats.Fallbacks++
 	}
@@ -505,6 +506,7 @@ func (s *Solver) restartAndReplay() {
 	if err := s.start(); err != nil {
 		return
 	}
+	savedSide := s.sideAt
 	for lvl, as := range saved {
 		if lvl > 0 {
 			s.Push()
@@ -513,6 +515,9 @@ func (s *Solver) restartAndReplay() {
 			s.define(a)
 			s.send("(assert " + a.ref() + ")")
 			s.stack[s.level] = append(s.stack[s.level], a)
+		}
+		if lvl < len(savedSide) {
+			s.sideAt[s.level] = savedSide[lvl]
 		}
 	}
 }
